@@ -16,6 +16,15 @@ def main():
         an = ElectronAnalyzer.load(sys.argv[2])
         sys.stdout.write("\n" + fsim.analyzer_digest(an) + "\n")
         return
+    if len(sys.argv) > 2 and sys.argv[1] == "--corrupt":
+        from cidersim import boot
+
+        boot.activate("plain")
+        from cidersim.engines import fsim
+
+        out = fsim.run_corrupt({"kind": "corrupt", "seed": int(sys.argv[2]), "in_child": True})
+        sys.stdout.write("\n" + json.dumps({"keys": sorted(set(v["key"] for v in out["violations"]))}) + "\n")
+        return
     job = json.loads(sys.stdin.read())
     from cidersim import boot
 
